@@ -419,7 +419,7 @@ def _r4(repo, L):
         if got != Lin.atom("c0") + (k - 1):
             ok, why = False, f"a contig cut into {k} pieces advances the cut counter by {got - Lin.atom('c0')}, expected {k - 1}"
     if not seen or max(seen) < 2:
-        ok, why = False, "no path cuts a contig into two or more pieces"
+        raise AnalysisError(f"{cut.short}: no analysed path makes two or more trim_fragment calls (the cuts are made in a form the counter rule does not follow, e.g. a comprehension)")
     L.check(ok, "R4", cut.short, "cuts += pieces − 1 for 1..3 pieces", why, cut.loc())
     # Fragment construction sites in the remapping code: only the cut
     sites = []
